@@ -92,6 +92,12 @@ func (r *responseStorer) StoreResponse(
 	} else {
 		refs[refIndex] = refEntry // Update existing response reference
 	}
+	// One reference per stored variant: an older reference to the same entry (e.g. one
+	// left behind by "Vary: *", which never matches) would only grow the index.
+	refs = slices.DeleteFunc(refs, func(ref *ResponseRef) bool {
+		return ref != refEntry && ref != nil && ref.ResponseID == responseID &&
+			maps.Equal(ref.VaryResolved, varyResolved)
+	})
 
 	return r.cache.SetRefs(urlKey, refs)
 }
